@@ -160,7 +160,10 @@ type c13Stack struct {
 	dump       func() (map[string][]byte, error)
 }
 
-var c13Layers = []string{"bare", "cache", "cache3", "encoding", "pview", "logical", "sview", "subview", "bview", "full", "fullsub"}
+// cache sizes: "cache" default (a transaction gets a private cache of 131072/64 =
+// 2048 entries), "cache3" 3 (the shared cache evicts; 3/64 = 0 gives a
+// transaction the default 131072), "cache256" 256 (a transaction gets 4 entries)
+var c13Layers = []string{"bare", "cache", "cache3", "cache256", "encoding", "pview", "logical", "sview", "subview", "bview", "full", "fullsub"}
 
 // c13OutsideKeys: keys placed next to a view prefix, directly on the base.
 func c13OutsideKeys(prefix string) []string {
@@ -202,10 +205,13 @@ func c13Build(base, layer string, raw physical.Backend, dump func() (map[string]
 	switch layer {
 	case "bare":
 		st.top = c13Phys{raw}
-	case "cache", "cache3":
+	case "cache", "cache3", "cache256":
 		size := 0
 		if layer == "cache3" {
 			size = 3
+		}
+		if layer == "cache256" {
+			size = 256
 		}
 		c := physical.NewCache(raw, size, logger, sink)
 		c.SetEnabled(true)
@@ -245,13 +251,17 @@ func c13Build(base, layer string, raw physical.Backend, dump func() (map[string]
 			return nil, err
 		}
 		st.top = c13Log{barrier.NewView(b, st.physPrefix)}
-	case "full", "fullsub":
+	case "full", "fullsub", "fullsmall":
 		// the order used by the core: barrier over encoding over cache over the backend
 		st.physPrefix, st.hasView, st.encrypted = "logical/3f9c/", true, true
 		if err := putOutside(st.physPrefix); err != nil {
 			return nil, err
 		}
-		c := physical.NewCache(raw, 0, logger, sink)
+		size := 0
+		if layer == "fullsmall" {
+			size = 256
+		}
+		c := physical.NewCache(raw, size, logger, sink)
 		c.SetEnabled(true)
 		st.cache = c
 		b, err := newBarrier(physical.NewStorageEncoding(c))
